@@ -557,3 +557,33 @@ TW('C17', 'twin-topup-multipass-rechecked', RA, '      for (key, _) in sorted_sc
 M(['C09', 'C15'], 'sk-relative-eps-of-root-eigenvalue', SK, "    eps = jnp.max(undeflated) * options.epsilon\n", "    eps = top_eigs[0] * options.epsilon\n")
 M(['C09', 'C15'], 'sk-relative-eps-of-deflated', SK, "    eps = jnp.max(undeflated) * options.epsilon\n", "    eps = jnp.max(deflated) * options.epsilon\n")
 TW(['C09', 'C15'], 'twin-sk-relative-eps-commuted', SK, "    eps = jnp.max(undeflated) * options.epsilon\n", "    eps = options.epsilon * undeflated.max()\n")
+
+M('C14', 'F22-sketchy-inplace-on-state-leaf', SK, "  sketch_dk = sketch_dk * axis_state.eigvals[jnp.newaxis, :]\n", "  sketch_dk *= axis_state.eigvals[jnp.newaxis, :]\n")
+TW('C14', 'twin-sm3-tuple-concat-on-state-field', SM3, "    stats = state.stats\n", "    stats = state.stats\n    seq = state.stats\n    seq += ()\n")
+TW('C14', 'twin-sketchy-scale-renamed', SK, "  sketch_dk = sketch_dk * axis_state.eigvals[jnp.newaxis, :]\n", "  scaled = axis_state.eigvecs * axis_state.eigvals[jnp.newaxis, :]\n  sketch_dk = scaled\n  sketch_dk *= 1\n")
+
+M('C16', 'driver-starts-at-row-one', TR, "  initial_state['n'] = 0\n", "  initial_state['n'] = 1\n")
+M('C16', 'driver-row-counter-stuck', TR, "    state['n'] += 1\n", "    state['n'] += 0\n")
+TW('C16', 'twin-driver-row-counter-respelled', TR, "    state['n'] += 1\n", "    state['n'] = 1 + state['n']\n")
+
+TW(['C13', 'C06'], 'twin-unbatch-comprehensions', DS, "  b1, b2 = batched_values.shape[0], batched_values.shape[1]\n  results = []\n  for v_array in jnp.split(batched_values, indices_or_sections=b1, axis=0):\n    v_array = jnp.squeeze(v_array, axis=0)\n    # b2 = batches (number of preconditioner computation) per core.\n    if b2 > 1:\n      for v in jnp.split(v_array, indices_or_sections=b2, axis=0):\n        results.append(jnp.squeeze(v, axis=0))\n    else:\n      results.append(jnp.squeeze(v_array, axis=0))\n  return results\n",
+   "  n_dev, per = batched_values.shape[0], batched_values.shape[1]\n  rows = [jnp.squeeze(c, axis=0) for c in jnp.split(batched_values, n_dev, 0)]\n  if 1 < per:\n    return [jnp.squeeze(p, axis=0) for r in rows for p in jnp.split(r, per, 0)]\n  return [jnp.squeeze(r, axis=0) for r in rows]\n")
+M(['C13', 'C06'], 'unbatch-comprehensions-column-major', DS, "  b1, b2 = batched_values.shape[0], batched_values.shape[1]\n  results = []\n  for v_array in jnp.split(batched_values, indices_or_sections=b1, axis=0):\n    v_array = jnp.squeeze(v_array, axis=0)\n    # b2 = batches (number of preconditioner computation) per core.\n    if b2 > 1:\n      for v in jnp.split(v_array, indices_or_sections=b2, axis=0):\n        results.append(jnp.squeeze(v, axis=0))\n    else:\n      results.append(jnp.squeeze(v_array, axis=0))\n  return results\n",
+   "  n_dev, per = batched_values.shape[0], batched_values.shape[1]\n  cols = [jnp.squeeze(c, axis=1) for c in jnp.split(batched_values, per, 1)]\n  return [jnp.squeeze(p, axis=0) for col in cols for p in jnp.split(col, n_dev, 0)]\n")
+TW('C12', 'twin-sm3-min-left-fold', SM3, "      min_accumulator = functools.reduce(jnp.minimum, accumulators)\n", "      min_accumulator = accumulators[0]\n      for other in accumulators[1:]:\n        min_accumulator = jnp.minimum(min_accumulator, other)\n")
+M('C12', 'sm3-min-left-fold-skips-first', SM3, "      min_accumulator = functools.reduce(jnp.minimum, accumulators)\n", "      min_accumulator = accumulators[1]\n      for other in accumulators[2:]:\n        min_accumulator = jnp.minimum(min_accumulator, other)\n")
+
+M('C09', 'avg-grad-never-restarts-for-interval-one', DS, '            jnp.logical_or(statistics_compute_steps == 1,\n                           step % statistics_compute_steps == 1), grad,\n', "            step % statistics_compute_steps == 1, grad,\n")
+M('C09', 'avg-grad-restarts-on-refresh-step', DS, '            jnp.logical_or(statistics_compute_steps == 1,\n                           step % statistics_compute_steps == 1), grad,\n', "            jnp.logical_or(statistics_compute_steps == 1,\n                           step % statistics_compute_steps == 0), grad,\n")
+TW('C09', 'twin-avg-grad-restart-respelled', DS, '            jnp.logical_or(statistics_compute_steps == 1,\n                           step % statistics_compute_steps == 1), grad,\n', "            jnp.logical_or(jnp.equal(jnp.mod(step, statistics_compute_steps), 1),\n                           1 == statistics_compute_steps), grad,\n")
+M('C09', 'avg-grad-not-averaged', DS, "        grad = new_avg_grad / statistics_compute_steps\n", "        grad = new_avg_grad\n")
+
+M('C11', 'stats-callback-adds-ridge', DS, "            from_float=lambda x: _maybe_quantize_statistics([x])[0],\n", "            from_float=lambda x: _maybe_quantize_statistics([x + matrix_epsilon * jnp.eye(x.shape[0])])[0],\n")
+TW('C11', 'twin-stats-callback-named', DS, "      def compute_updated_statistics():\n        return preconditioner.updated_statistics_from_grad(\n            state.statistics,\n            grad,\n            w1=w1,\n            w2=w2,\n            to_float=_to_float,\n            from_float=lambda x: _maybe_quantize_statistics([x])[0],\n",
+   "      def _requantize(matrix):\n        quantized = _maybe_quantize_statistics([matrix])\n        return quantized[0]\n\n      def compute_updated_statistics():\n        return preconditioner.updated_statistics_from_grad(\n            state.statistics,\n            grad,\n            w1=w1,\n            w2=w2,\n            to_float=lambda q: _to_float(q),\n            from_float=_requantize,\n")
+M('C11', 'from-float-value-symmetrises', QU, "    quantized, diagonal_fvalue, bucket_size = QuantizedValue.quantize(\n        fvalue, quantized_dtype, extract_diagonal)\n    return QuantizedValue(quantized, diagonal_fvalue, bucket_size,", "    if extract_diagonal and fvalue.ndim == 2:\n      fvalue = 0.5 * (fvalue + fvalue.T)\n    quantized, diagonal_fvalue, bucket_size = QuantizedValue.quantize(\n        fvalue, quantized_dtype, extract_diagonal)\n    return QuantizedValue(quantized, diagonal_fvalue, bucket_size,")
+
+M('C13', 'sharded-update-pad-eye-default-dtype', DS, "        [jnp.eye(max_size, dtype=stat_dtype) for _ in range(to_pad)])\n    padding_starts += [0] * to_pad\n", "        [jnp.eye(max_size) for _ in range(to_pad)])\n    padding_starts += [0] * to_pad\n")
+M('C07', 'clip-norm-numpy-sqrt', DS, "            jnp.sqrt(float(rmsprop_update.size)))\n", "            np.sqrt(rmsprop_update.size))\n")
+TW('C07', 'twin-clip-norm-float-wrapped-numpy', DS, "            jnp.sqrt(float(rmsprop_update.size)))\n", "            float(np.sqrt(rmsprop_update.size)))\n")
+M2('C17', 'redist-tree-shared-row', [(RA, "    res = {}\n    for p in list(score_dict):\n", "    res = {}\n    row = [0] * num_axes\n    for p in list(score_dict):\n"), (RA, "      cur[dirs[-1]] = [0] * num_axes\n", "      cur[dirs[-1]] = row\n")])
